@@ -72,6 +72,27 @@ def gen_case(rng, cid, store):
         pool.append(a)
     shape = rng.choice([(2, 2), (3, 2), (2, 2, 1), (2, 1, 1), (3, 3), (2, 2, 2), (1, 1, 1)])
     threads, pushed, artifacts = [], [], []
+    if store != "memdir" and rng.random() < 0.4:
+        # pushes and deletes of referrers of one shared subject from two clients (read-modify-write of its response)
+        pre = []
+        for _ in range(2):
+            n[0] += 1
+            a = mk_image(n[0], subject=subj, at="application/vnd.example.sig")
+            prefix.append(manifest_put(repo, dg("sha256", a), a, ctype=MT_OCI_M))
+            pre.append(a)
+            pool.append(a)
+        for t in range(2):
+            th = []
+            for k2 in range(3):
+                n[0] += 1
+                if k2 == 1:
+                    th.append(manifest_delete(repo, dg("sha256", pre[t])))
+                else:
+                    a = mk_image(n[0], subject=subj, at="application/vnd.example.sbom")
+                    th.append(manifest_put(repo, dg("sha256", a), a, ctype=MT_OCI_M))
+                    artifacts.append(a)
+            threads.append(th)
+        shape = ()
     for tlen in shape:
         th = []
         for _ in range(tlen):
@@ -149,7 +170,7 @@ def interleavings(lens, before):
 
 
 def make_cases(ctx, first):
-    n = 60 if ctx.tier == "quick" else 2500
+    n = 180 if ctx.tier == "quick" else 6000
     return [gen_case(ctx.rng, first + i, ("mem", "dir", "memdir")[i % 3]) for i in range(n)]
 
 
@@ -239,6 +260,12 @@ def linearize(ctx, cases, iouts, views):
         par = io["steps"][k]["par"]
         best = None
         ok = False
+        relaxed_ok = None
+        acked_del = {}
+        for t, (th, rs) in enumerate(zip(threads, par)):
+            for st, r in zip(th, rs):
+                if st["kind"] == "mdel" and r.get("status") == 202:
+                    acked_del.setdefault((st.get("repo"), st.get("arg")), []).append(t)
         for j in js:
             order = meta[j["id"]][1]
             mo = mouts[j["id"]]["steps"]
@@ -250,13 +277,22 @@ def linearize(ctx, cases, iouts, views):
                 if canon_impl(c["steps"][q], io["steps"][q], si) != canon_model(c["steps"][q], mo[q], sm):
                     bad = ("prefix", q)
                     break
+            relaxed = False
             if bad is None:
                 for pos, (t, jx) in enumerate(order):
                     st = threads[t][jx]
                     if st["kind"] == "gc":
                         nm += 1
                         continue
-                    if canon_impl(st, par[t][jx], si) != canon_model(st, mo[k + pos], sm):
+                    ca, cb = canon_impl(st, par[t][jx], si), canon_model(st, mo[k + pos], sm)
+                    if ca != cb:
+                        # two overlapping DELETEs of one reference that were both acknowledged (finding C11-F48): the
+                        # second one would be answered 404 by any sequential order
+                        if (st["kind"] == "mdel" and ca.get("status") == 202 and cb.get("status") == 404
+                                and len(acked_del.get((st.get("repo"), st.get("arg")), [])) >= 2):
+                            relaxed = True
+                            nm += 1
+                            continue
                         bad = ("concurrent", pos)
                         break
                     nm += 1
@@ -267,14 +303,22 @@ def linearize(ctx, cases, iouts, views):
                         bad = ("after", q)
                         break
                     nm += 1
-            if bad is None:
+            if bad is None and not relaxed:
                 ok = True
                 break
+            if bad is None and relaxed:
+                relaxed_ok = order
+                continue
             if best is None or nm > best[0]:
                 best = (nm, order, bad)
         norders += len(js)
         if ok:
             nlin += 1
+        elif relaxed_ok is not None:
+            nlin += 1
+            dd = [k_ for k_, v in acked_del.items() if len(v) >= 2]
+            ctx.violation("two overlapping DELETEs of %s were both answered 202: no sequential order acknowledges the second one (everything else in the history is linearizable)" % (dd[0][1][:19] if dd else "?"),
+                          dict(case=replayable(c), order=relaxed_ok), "C11:double-delete-acknowledged")
         else:
             nfail += 1
             hist = [[dict(thread=t, req="%s %s" % (st["impl"].get("method", st["kind"]), st["impl"].get("path", st.get("repo", ""))), status=r.get("status"),
